@@ -326,9 +326,11 @@ func (s *Sim) observe(o Op, rets []string, delivered []Payload, before map[int]i
 	}
 	for _, sp := range selected {
 		// identify the pair by its id in the snapshot (same candidate objects)
+		// (the notification carries the two candidates only: when two listed pairs share them -- known finding
+		// C06 two_prflx_superseded -- the currently selected one is meant, else the oldest)
 		id := "-1"
 		for _, p := range snap.Pairs {
-			if p.Local == sp[0] && p.Remote == sp[1] {
+			if p.Local == sp[0] && p.Remote == sp[1] && (id == "-1" || (snap.HasSelected && p.ID == snap.SelectedID)) {
 				id = fmt.Sprint(p.ID)
 			}
 		}
